@@ -1286,6 +1286,75 @@ Proof.
 Qed.
 
 (* ------------------------------------------------------------------------------------------ *)
+(* 11. refused writes: the application catches the exception of write() and carries on          *)
+
+Section Tolerant.
+Variable c : jcfg.
+Hypothesis OK : cfg_facts c.
+Variable H : descriptor -> Z.
+
+(* a refused write emits no record document; it registers the descriptor and emits its document exactly when the
+   registry did not hold it -- so the file and the registry stay in step *)
+Lemma write_step_refused on reg r : pack_record c H on r = None ->
+  write_step c H on reg r =
+  if known H true reg (r_desc r) then (reg, [])
+  else ((ident_of H (r_desc r), r_desc r) :: reg, if on then [pack_descriptor c (r_desc r)] else []).
+Proof.
+  intros P. unfold write_step. rewrite P, (f_pg c OK).
+  destruct (known H true reg (r_desc r)) eqn:K; [reflexivity|].
+  unfold register. rewrite (f_rg c OK), K. reflexivity.
+Qed.
+
+Lemma write_step_good on reg r : rec_good c r ->
+  write_step c H on reg r =
+  if known H true reg (r_desc r) then (reg, [record_spec c H on r])
+  else ((ident_of H (r_desc r), r_desc r) :: reg, (if on then [pack_descriptor c (r_desc r)] else []) ++ [record_spec c H on r]).
+Proof.
+  intros G. unfold write_step. rewrite (pack_record_spec c OK H on r G), (f_pg c OK).
+  destruct (known H true reg (r_desc r)) eqn:K; [reflexivity|].
+  unfold register. rewrite (f_rg c OK), K. reflexivity.
+Qed.
+
+(* when nothing is refused the tolerant writer is the writer *)
+Lemma write_tolerant_all_good on rs : forall reg, Forall (rec_good c) rs ->
+  write_from c H on reg rs = Some (write_tolerant c H on reg rs).
+Proof.
+  intros reg G. rewrite (write_from_spec c OK H on rs reg G). f_equal. revert reg.
+  induction G as [|r rs G1 G2 IH]; intros reg; [reflexivity|].
+  cbn [docs_spec write_tolerant]. rewrite (write_step_good on reg r G1).
+  destruct (known H true reg (r_desc r)); rewrite IH; [reflexivity|]. rewrite <- app_assoc. reflexivity.
+Qed.
+
+Lemma accepted_good r : rec_good c r -> accepted c H true r = true.
+Proof. intros G. unfold accepted. rewrite (pack_record_spec c OK H true r G). reflexivity. Qed.
+Lemma accepted_refused r : pack_record c H true r = None -> accepted c H true r = false.
+Proof. intros P. unfold accepted. rewrite P. reflexivity. Qed.
+
+(* every record whose write succeeded reads back, in order -- whatever was refused in between, also as the first
+   record of its type *)
+Theorem tolerant_roundtrip rs : forall reg,
+  Forall (fun r => rec_good c r \/ pack_record c H true r = None) rs ->
+  read_from c H reg (write_tolerant c H true reg rs) = Some (filter (accepted c H true) rs).
+Proof.
+  induction rs as [|r rs IH]; intros reg G; [reflexivity|].
+  inversion G as [|? ? G1 G2]; subst. cbn [write_tolerant filter].
+  destruct G1 as [G1|G1].
+  - rewrite (write_step_good true reg r G1), (accepted_good r G1).
+    destruct (known H true reg (r_desc r)) eqn:K.
+    + cbn [app read_from]. rewrite (read_record_doc c OK H reg r G1 (known_true_get H reg _ K)). rewrite (IH reg G2). reflexivity.
+    + cbn [app read_from]. rewrite (read_descriptor_doc c OK H). unfold register. rewrite (f_rg c OK), K. cbn [fst].
+      rewrite (read_record_doc c OK H); [|exact G1|cbn [reg_get]; rewrite ident_eqb_refl; reflexivity].
+      rewrite (IH _ G2). reflexivity.
+  - rewrite (write_step_refused true reg r G1), (accepted_refused r G1).
+    destruct (known H true reg (r_desc r)) eqn:K.
+    + cbn [app]. apply IH. exact G2.
+    + cbn [app read_from]. rewrite (read_descriptor_doc c OK H). unfold register. rewrite (f_rg c OK), K. cbn [fst].
+      apply IH. exact G2.
+Qed.
+
+End Tolerant.
+
+(* ------------------------------------------------------------------------------------------ *)
 (* 9. the statements used by props/C14.v, under the computed side condition cfg_ok               *)
 
 Section Top.
@@ -1411,6 +1480,24 @@ Theorem top_no_descriptors_finite rs : Forall json_ok rs ->
   exists docs ps, write_json c H false rs = Some docs /\ read_json c H docs = Some ps
   /\ Forall2 (fun doc p => d_name (r_desc p) = fallback_name c /\ scalar_view_record p = scalar_view_doc c doc) docs ps.
 Proof. intros G. exact (top_no_descriptors rs (ok_supported rs G)). Qed.
+
+(* refused writes *)
+Theorem top_refused_step on reg r : pack_record c H on r = None ->
+  write_step c H on reg r =
+  if known H true reg (r_desc r) then (reg, [])
+  else ((ident_of H (r_desc r), r_desc r) :: reg, if on then [pack_descriptor c (r_desc r)] else []).
+Proof. exact (write_step_refused c OK H on reg r). Qed.
+
+Theorem top_refused_writes rs : Forall (fun r => json_ok r \/ pack_record c H true r = None) rs ->
+  read_json c H (write_tolerant c H true [] rs) = Some (filter (accepted c H true) rs).
+Proof.
+  intros G. apply (tolerant_roundtrip c OK H rs []).
+  apply Forall_forall. intros r Hr. rewrite Forall_forall in G. destruct (G r Hr) as [[A B]|P]; [left|right; exact P].
+  exact (finite_supported r A B).
+Qed.
+
+Theorem top_tolerant_agrees on rs : Forall json_ok rs -> write_json c H on rs = Some (write_tolerant c H on [] rs).
+Proof. intros G. exact (write_tolerant_all_good c OK H on rs [] (ok_supported rs G)). Qed.
 
 End Top.
 
